@@ -28,6 +28,13 @@ SPECS = [
          inputs=[("num_collected_steps", "Z"), ("frequency", "Z")], subst={"train_freq.frequency": "frequency"}),
     dict(name="off_more_episode", file=_UT, qual="should_collect_more_steps", start=r"^return .*num_collected_episodes", end=None, kind="expr", ret="bool",
          inputs=[("num_collected_episodes", "Z"), ("frequency", "Z")], subst={"train_freq.frequency": "frequency"}),
+    dict(name="off_sde_guard", qual="OffPolicyAlgorithm.collect_rollouts", start=r"^if self\.use_sde and self\.sde_sample_freq\b", end=None, kind="test",
+         inputs=[("use_sde", "bool"), ("sde_sample_freq", "Z"), ("num_collected_steps", "Z")],
+         subst={"self.use_sde": "use_sde", "self.sde_sample_freq": "sde_sample_freq"}),
+    dict(name="off_sde_start_guard", qual="OffPolicyAlgorithm.collect_rollouts", start=r"^if self\.use_sde:$", end=None, kind="test",
+         inputs=[("use_sde", "bool")], subst={"self.use_sde": "use_sde"}),
+    dict(name="off_noise_reset_guard", qual="OffPolicyAlgorithm.collect_rollouts", start=r"^if action_noise\b", end=None, kind="test",
+         inputs=[("has_noise", "bool")], subst={"action_noise is not None": "has_noise"}),
     dict(name="off_warmup", qual="OffPolicyAlgorithm._sample_action", start=r"^if self\.num_timesteps\b", end=None, kind="test",
          inputs=[("num_timesteps", "Z"), ("learning_starts", "Z"), ("use_sde", "bool"), ("use_sde_at_warmup", "bool")],
          subst={"self.num_timesteps": "num_timesteps", "self.use_sde": "use_sde", "self.use_sde_at_warmup": "use_sde_at_warmup"}),
